@@ -537,6 +537,9 @@ func (s *safety) minFieldSize(f *FieldLayout) int64 {
 func (s *safety) iterationMinBytes(arm *Arm) int64 {
 	var n int64
 	for _, e := range arm.Events {
+		if e.Failed {
+			continue // a failed read may have consumed nothing
+		}
 		switch e.Kind {
 		case EvReadInt:
 			if sz, ok := fixedSize(e.IntType); ok && sz > 0 {
